@@ -7,6 +7,6 @@ for id in $ids; do
   [ -n "$SEED_PROP" ] && p=$SEED_PROP
   git -C /repo apply /verif/seeded/$id/patch.diff || { echo "$id: patch does not apply"; continue; }
   out=$(./check $p 2>/dev/null); n=$(echo "$out" | grep -c '^VIOLATION'); nf=$(echo "$out" | grep -c 'no-failing-input-found')
-  git -C /repo checkout -- .
+  git -C /repo checkout -- . ; git -C /repo clean -fdq -- src
   echo "$id -> $p: violation lines=$n (no-failing-input-found=$nf)"
 done
